@@ -2,6 +2,7 @@
 (***************************************************************************)
 (* Polynomials of degree < WDom over F_WR in evaluation form on the domain *)
 (* {0, .., WDom-1}: f[i+1] is the value at i  (C18, C04).                  *)
+(* (ELet = eager let, see module Num: same meaning as LET, evaluated once) *)
 (***************************************************************************)
 EXTENDS Transcript
 
@@ -16,16 +17,16 @@ PAprimeVec == [i \in 1 .. WDom |-> PAprime(i - 1)]
 (* A(t) = prod_j (t - j) *)
 PA(t) == FoldLeft(LAMBDA acc, j : FMul(WR, acc, FSub(WR, t, PFr(j - 1))), NMod(N1, WR), PIdx)
 
-(* quotient (f(X) - f(z)) / (X - z) for a domain index z, in evaluation form.
+(* quotient (f(X) - f(z)) / (X - z) for a domain index z, in evaluation form:
+     q_j = (f_j - f_z)/(j - z) for j # z,   q_z = - sum_{j # z} (A'(z)/A'(j)) q_j
    ap = PAprimeVec is passed in so that callers compute it once. *)
 PQuotient(ap, f, z) ==
-  LET fz  == f[z + 1]
-      q   == [j \in 1 .. WDom |-> IF j - 1 = z THEN N0
-                                  ELSE FDiv(WR, FSub(WR, f[j], fz), FSub(WR, PFr(j - 1), PFr(z)))]
-      qz  == FNeg(WR, FoldLeft(LAMBDA acc, j : IF j - 1 = z THEN acc
-                                               ELSE FAdd(WR, acc, FMul(WR, FDiv(WR, ap[z + 1], ap[j]), q[j])),
-                               N0, PIdx))
-  IN  [j \in 1 .. WDom |-> IF j - 1 = z THEN qz ELSE q[j]]
+  LET st == FoldLeft(LAMBDA S, j :
+                       IF j - 1 = z THEN <<Append(S[1], N0), S[2]>>
+                       ELSE LET qj == FDiv(WR, FSub(WR, f[j], f[z + 1]), FSub(WR, PFr(j - 1), PFr(z)))
+                            IN  <<Append(S[1], qj), FAdd(WR, S[2], FMul(WR, FDiv(WR, ap[z + 1], ap[j]), qj))>>,
+                     <<<<>>, N0>>, PIdx)
+  IN  ELet(st, LAMBDA r : ReplaceAt(r[1], z + 1, FNeg(WR, r[2])))
 
 (* characterisation of the quotient that uses no division table (C18 oracle):
    for all i # k: q_i (i - k) = f_i - f_k, and the coefficient of X^(WDom-1) of q,
@@ -36,33 +37,29 @@ PIsQuotient(ap, f, k, q) ==
 
 (* Lagrange coefficients L_j(t) = A(t) / (A'(j) (t - j)) for t outside the domain *)
 PLagrange(ap, t) ==
-  LET at == PA(t)
-  IN  [j \in 1 .. WDom |-> FDiv(WR, at, FMul(WR, ap[j], FSub(WR, t, PFr(j - 1))))]
+  ELet(PA(t), LAMBDA at : [j \in 1 .. WDom |-> FDiv(WR, at, FMul(WR, ap[j], FSub(WR, t, PFr(j - 1))))])
 (* characterisation without tables: sum_i i^j b_i = t^j for all j < WDom (Vandermonde) *)
 PIsLagrange(b, t) ==
-  LET st == FoldLeft(LAMBDA S, j :
-                       \* S = <<ok, powers i^j for each i, t^j>>
-                       LET lhs == FoldLeft(LAMBDA acc, i : FAdd(WR, acc, FMul(WR, S[2][i], b[i])), N0, PIdx)
-                       IN  << S[1] /\ lhs = S[3],
-                              [i \in 1 .. WDom |-> FMul(WR, S[2][i], PFr(i - 1))],
-                              FMul(WR, S[3], t) >>,
-                     <<TRUE, [i \in 1 .. WDom |-> NMod(N1, WR)], NMod(N1, WR)>>, PIdx)
-  IN  st[1]
+  FoldLeft(LAMBDA S, j :
+             \* S = <<ok, powers i^j for each i, t^j>>
+             << S[1] /\ FoldLeft(LAMBDA acc, i : FAdd(WR, acc, FMul(WR, S[2][i], b[i])), N0, PIdx) = S[3],
+                [i \in 1 .. WDom |-> FMul(WR, S[2][i], PFr(i - 1))],
+                FMul(WR, S[3], t) >>,
+           <<TRUE, [i \in 1 .. WDom |-> NMod(N1, WR)], NMod(N1, WR)>>, PIdx)[1]
 
 (* coefficient form by Newton interpolation on 0, 1, 2, ..; independent of every table *)
 PNewtonCoeffs(f) ==
   \* divided differences: c_k = f[0..k];  column update  d_i <- (d_i - d_{i-1}) / k
   FoldLeft(LAMBDA S, k :
              \* S = <<current column d (values for i >= k-1 meaningful), coefficients so far>>
-             LET ik == FInv(WR, PFr(k))
-                 d2 == [i \in 1 .. WDom |-> IF i <= k THEN S[1][i]
-                                            ELSE FMul(WR, FSub(WR, S[1][i], S[1][i - 1]), ik)]
-             IN  <<d2, Append(S[2], d2[k + 1])>>,
+             ELet(FInv(WR, PFr(k)), LAMBDA ik :
+               ELet([i \in 1 .. WDom |-> IF i <= k THEN S[1][i] ELSE FMul(WR, FSub(WR, S[1][i], S[1][i - 1]), ik)],
+                    LAMBDA d2 : <<d2, Append(S[2], d2[k + 1])>>)),
            <<f, <<f[1]>>>>, [k \in 1 .. (WDom - 1) |-> k])[2]
 (* evaluate the Newton form  sum_k c_k prod_{j<k} (t - j)  (Horner) *)
 PEvalNewton(c, t) ==
   FoldLeft(LAMBDA acc, kk : LET k == WDom - kk IN FAdd(WR, c[k + 1], FMul(WR, acc, FSub(WR, t, PFr(k)))),
            N0, PIdx)
 (* value of the interpolating polynomial of f at ANY field point t *)
-PEval(f, t) == PEvalNewton(PNewtonCoeffs(f), t)
+PEval(f, t) == ELet(PNewtonCoeffs(f), LAMBDA c : PEvalNewton(c, t))
 =============================================================================
